@@ -86,8 +86,8 @@ def names_of(ctx, w):
 
 def case_key(c):
     k = c['c']
-    return '%s[%s] %s/%s/%s n=%d %s umem=%d' % (c['w'], ','.join(str(x) for x in c['p']), k['mode'], k['gpu'], k['arch'],
-                                                  k['n'], k['dist'], k['umem'])
+    return '%s[%s] %s/%s/%s n=%d %s umem=%d%s' % (c['w'], ','.join(str(x) for x in c['p']), k['mode'], k['gpu'], k['arch'],
+                                                    k['n'], k['dist'], k['umem'], (' knobs ' + c['knobs']) if c.get('knobs') else '')
 
 
 def case_args(ctx, c, verify=True):
@@ -106,6 +106,8 @@ def case_args(ctx, c, verify=True):
         argv += ['-gpus', ids]
     if k['umem']:
         argv += ['-use-unified-memory']
+    if c.get('knobs'):
+        argv += ['-knobs', c['knobs']]
     if verify and c['w'] not in NO_VERIFY_FLAG:
         argv += ['-verify']
     return argv
@@ -285,7 +287,8 @@ def platform_dependence(ctx, drv, res, idx):
     c = dict(res['case'])
     # exactly one compute unit in the whole platform: one GPU, device memory, one shader array with one CU
     c['c'] = dict(c['c'], n=1, dist='plain', umem=0)
-    one = run_case(ctx, drv, 'onecu%s' % idx, c, ['-knobs', SINGLE_CU])
+    c['knobs'] = SINGLE_CU
+    one = run_case(ctx, drv, 'onecu%s' % idx, c)
     f = classify_quiet(one)
     launches = sum(1 for x in (one['obs'] or {}).get('commands', []) if 'Launch' in x['what'])
     shutil.rmtree(one['dir'], ignore_errors=True)
